@@ -248,6 +248,19 @@ def c10(case, o, res, prefix="C10"):
         with np.errstate(all="ignore"):
             r0 = np.mean(np.array([o.calls[i][1] for i in groups[1]], dtype=float), axis=0)
             f0 = objective_of(case, o.calls[0][0], r0)
+        # a hard restart that re-evaluates its start point (restarts.hard.use_old_rk=False) measures f(x0) afresh for its own
+        # relative test; with a noisy objective that value can exceed the first one (thorough tier, seed 1: a false alarm of the
+        # first version, which assumed later runs can only be stricter). f(x0) = the largest start value of any run.
+        if up.get("restarts.hard.use_old_rk", True) is False and len(o.main_calls) > 1:
+            for start in o.main_calls[1:]:
+                if start < len(o.evlog):
+                    idx = groups.get(o.evlog[start][1], [])
+                    if idx:
+                        with np.errstate(all="ignore"):
+                            rj = np.mean(np.array([o.calls[i][1] for i in idx], dtype=float), axis=0)
+                            fj = objective_of(case, o.calls[idx[0]][0], rj)
+                        if math.isfinite(fj):
+                            f0 = max(f0, fj)
         thr = max(up.get("model.abs_tol", 1e-12), up.get("model.rel_tol", 1e-20) * f0) if math.isfinite(f0) else float("inf")
         nsmax = max([1] + [len(g) for g in groups.values()])
         if not (float(s.obj) <= thr * (1 + 16 * EPS * nsmax)):
